@@ -35,6 +35,8 @@ var (
 
 // Prog is the loaded, type-checked program in SSA form.
 type Prog struct {
+	GlobalAlias map[string]*ssa.Global // package variables re-bound after a rename (see shapes.go)
+	TypeAlias map[string]*types.Named // named types re-bound after a rename (see shapes.go)
 	FieldAlias map[string]*types.Var // "Struct.field" anchors re-bound after a rename (see shapes.go)
 	Converted map[*ssa.Function]string // functions answering to an anchor name after a method<->function conversion
 	Variant Variant
